@@ -16,6 +16,9 @@ CLAIMED = {
  "C02": dict(level="proof", design="3/C02", tech="global value numbering with polynomial normal form over inlined LLVM IR (address identities)",
    text="For every provided view kind (interleaved, planar, x/xy-step, transposed, packed, bit-aligned, channel views, dereference-adapted, virtual) and every factory, the memory cell denoted by F(v)(x,y) and by v(phi_F(x,y)) are normalised to polynomials over the view's fields and (x,y) and must be identical; likewise all ordered compositions of two factories, dimension formulas, nth/kth channel views and the stated identities. Equality of normal forms holds for all shapes, strides and coordinates at once.",
    note="Trusted: clang front end, LLVM inliner/SROA/mem2reg, the normaliser harness/ir/poly.py, the documented formulas in spec/c02_factories.json. Assumes bit offsets narrowed to int do not overflow. color_converted_view values are C09's clause; shallow-ness (no allocation/copy reachable) is checked by the AST who-may-call rule when present."),
+ "C03": dict(level="proof", design="3/C03", tech="global value numbering with polynomial normal form over inlined LLVM IR (address identities, boolean polynomials for comparisons)",
+   text="For every view kind, the cell reached through each navigation path (view(point), row/col iterators, x_at/y_at/xy_at, locator arithmetic, cached locations, axis iterators, in-place moves) has the same polynomial normal form as view(x,y) shifted by the offset; the polynomial random-access laws, the mutual mirroring of the ordering operators, their agreement with the direction of travel for positive and negative steps, and is_1d_traversable <=> row bytes == width*step are decided the same way, for all shapes, strides and offsets at once.",
+   note="Trusted: clang front end, LLVM inliner/SROA/mem2reg, harness/ir/poly.py. Assumes non-zero iterator steps and that relationally compared pointers lie in one object. Not decided: row carry of iterator_from_2d for arbitrary offsets (begin()[n], at(x,y), end()-begin()), bit-offset carries as values (C08), reverse iterators."),
 }
 NA_REASON = {
  "C19": "sums over hash-map contents filled in data-dependent loops; no static domain in reach relates container contents to pixel counts (DESIGN 3/C19)",
